@@ -126,7 +126,12 @@ type Table struct {
 var comments = []string{"--1\n", "-- a note\n", "/* x */", "/* - 1 */", "--\n", "/**/", "/* ' */", "-- \"q\n", "/* a, b */", "--,\n",
 	// a comment that starts with /*/ runs to the next */ like any other (the
 	// "toggle" idiom); what it hides would parse in its place
-	"/*/ UNIQUE /*/", "/*/ DESC /*/", "/*/ COLLATE NOCASE /*/", "/*/ NOT NULL UNIQUE /*/", "/*/*/", "/*/ , UNIQUE (a) */", "/* */ /*/ PRIMARY KEY /*/"}
+	"/*/ UNIQUE /*/", "/*/ DESC /*/", "/*/ COLLATE NOCASE /*/", "/*/ NOT NULL UNIQUE /*/", "/*/*/", "/*/ , UNIQUE (a) */", "/* */ /*/ PRIMARY KEY /*/", "/*/ , zz_commented_out INT /*/", "/*/ , zz_commented_out /*/"}
+
+// comments whose text is a piece of definition (a commented-out column, a
+// constraint): a line comment ends at the line feed only - a lone carriage
+// return is part of it - and a block comment at the first */ after its /*
+var hidingComments = []string{"/*/ , zz_commented_out INT /*/", "/*/ , zz_commented_out /*/", "/* , zz_commented_out TEXT */", "-- old:\r , zz_commented_out INT\n", "--\r UNIQUE\n", "-- was\r COLLATE nocase DESC\n", "/*/ UNIQUE /*/", "--\r , zz_commented_out\r\n"}
 
 // withComment writes the comment after element at (mod the number of elements).
 func withComment(parts []string, comment string, at int) []string {
@@ -423,8 +428,12 @@ func GenTable(t *rapid.T, name Ident, o Opts) Table {
 	if len(tb.Cons) > 1 && rapid.Bool().Draw(t, "tcshuffle") {
 		tb.Cons = rapid.Permutation(tb.Cons).Draw(t, "tcorder")
 	}
-	if !o.Conservative && rapid.IntRange(0, 11).Draw(t, "tcomment") == 0 {
+	if rapid.IntRange(0, 11).Draw(t, "tcomment") == 0 {
 		tb.Comment = rapid.SampledFrom(comments).Draw(t, "tcommenttext")
+		if rapid.IntRange(0, 2).Draw(t, "tcommenthides") == 0 {
+			// a comment that hides something which would parse in its place
+			tb.Comment = rapid.SampledFrom(hidingComments).Draw(t, "tcommenthiding")
+		}
 		tb.CommentAt = rapid.IntRange(0, 8).Draw(t, "tcommentat")
 	}
 	return tb
@@ -514,6 +523,9 @@ func GenIndex(t *rapid.T, name Ident, tb Table, unique, exprs, partial bool) Ind
 	}
 	if rapid.IntRange(0, 9).Draw(t, "icomment") == 0 {
 		ix.Comment = rapid.SampledFrom(comments).Draw(t, "icommenttext")
+		if rapid.IntRange(0, 2).Draw(t, "icommenthides") == 0 {
+			ix.Comment = rapid.SampledFrom([]string{"-- was\r COLLATE nocase DESC\n", "--\r DESC\n", "/*/ DESC /*/", "/*/ COLLATE NOCASE /*/", "-- x\r COLLATE rtrim\r\n"}).Draw(t, "icommenthiding")
+		}
 		ix.CommentAt = rapid.IntRange(0, 5).Draw(t, "icommentat")
 	}
 	return ix
